@@ -4,6 +4,30 @@
 From Moq Require Import Strs MockSem MockSpec MockSeq_Proofs.
 Local Open Scope list_scope.
 
+(* The delegation step itself needs nothing but the method's own body to have the
+   checked shape: it does not depend on the accessors or the reset methods. *)
+Theorem C03_call_core grow stub mk m mm body args res st :
+  find_method mk m = Some mm -> mm_name mm = m -> mm_body mm = Some body ->
+  canonical_body stub mm body = true ->
+  List.length args = mm_nparams mm -> lock_of st m = LFree ->
+  exists st2,
+    run_op grow mk (OCall m args (Some (Impl [] res))) st =
+    Some (st2, [EvInvoke m (map ASame args);
+                match res with
+                | FRet rs => EvReturn m (if Nat.eqb (mm_nresults mm) 0 then [] else rs)
+                | FPanic v => EvPanic m (PUser v)
+                end]).
+Proof.
+  intros FM NAME MB CB LEN FREE. rewrite run_op_call, FM, MB.
+  destruct (canonical_body_inv _ _ _ CB) as [msg [fs [spec [BODY [CF CA]]]]]. cbn zeta in BODY.
+  subst body. rewrite NAME in *.
+  destruct stub; cbn [app exec]; rewrite NAME; rewrite FREE; cbn [lc_rec lc_loaded];
+    (destruct (go_append grow _ _ _) as [h s]);
+    rewrite lock_set_hdr, lock_of_mk, lock_set_same; rewrite String.eqb_refl;
+    rewrite (canonical_argvals mm _ args CA LEN); cbn [run_ops app];
+    (destruct res; [destruct (Nat.eqb (mm_nresults mm) 0) eqn:Z; cbn [negb]|]); eexists; reflexivity.
+Qed.
+
 Section C03.
 Variable grow : nat -> nat.
 Hypothesis grow_grows : forall n, n < grow n.
